@@ -503,6 +503,6 @@ func TestC14(t *testing.T) {
 			"Non-trivial: >= 2 elements with a seek to an absent value, or the set contains the empty string, or the set is empty. Distinct by hash of the case JSON.",
 		Assumptions: []string{"the set-symbol runtime cursor is sought with SeekToString (the form the engine uses); its raw Seek is not exercised"},
 		Gen:         genC14, Run: runC14,
-		QuickChecks: 15000, ThoroughFactor: 20,
+		QuickChecks: 40000, ThoroughFactor: 8,
 	})
 }
